@@ -33,3 +33,7 @@ package handshake
 //@ func serverHelloExtensionContext
 //@ noinline
 //@ end
+
+// The extension registry maps (type, context) to constructors `func() extension.Value { return &T{} }`:
+// calling one only allocates.
+//@ assume-pure handshake.extensionRegistry[]#0[]#0
